@@ -275,12 +275,20 @@ deriving DecidableEq, Repr, Inhabited
 /-- Files of one top-level directory (`current`, `old`, `tmp-<serial>`), by relative path. -/
 abbrev Tree := List (List String × Raw)
 
-/-- `repo_dir/rsync`: top-level directories. -/
-abbrev RsyncFs := List (String × Tree)
+/-- Names of the directories directly below `repo_dir/rsync`. -/
+inductive Top where
+  | current
+  | old
+  | tmp (serial : Nat)      -- `tmp-<serial>`
+  | other (name : String)
+deriving DecidableEq, Repr, Inhabited
 
-def RsyncFs.get? (fs : RsyncFs) (n : String) : Option Tree := fs.lookup n
-def RsyncFs.remove (fs : RsyncFs) (n : String) : RsyncFs := fs.filter (fun e => e.1 != n)
-def RsyncFs.set (fs : RsyncFs) (n : String) (t : Tree) : RsyncFs := (n, t) :: fs.remove n
+/-- `repo_dir/rsync`: top-level directories. -/
+abbrev RsyncFs := List (Top × Tree)
+
+def RsyncFs.get? (fs : RsyncFs) (n : Top) : Option Tree := fs.lookup n
+def RsyncFs.remove (fs : RsyncFs) (n : Top) : RsyncFs := fs.filter (fun e => e.1 != n)
+def RsyncFs.set (fs : RsyncFs) (n : Top) (t : Tree) : RsyncFs := (n, t) :: fs.remove n
 
 def Tree.get? (t : Tree) (p : List String) : Option Raw := t.lookup p
 def Tree.set (t : Tree) (p : List String) (r : Raw) : Tree := (p, r) :: t.filter (fun e => e.1 != p)
@@ -293,10 +301,10 @@ def saveOver (old : Option Raw) (c : Content) : Raw :=
   | some .garbage => .garbage
 
 inductive RMut where
-  | mkdir (n : String)
-  | save (n : String) (rel : List String) (c : Content)
-  | rename (a b : String)
-  | removeAll (n : String)
+  | mkdir (n : Top)
+  | save (n : Top) (rel : List String) (c : Content)
+  | rename (a b : Top)
+  | removeAll (n : Top)
 deriving DecidableEq, Repr, Inhabited
 
 /-- `none`: the operation fails with an I/O error (the directory is unchanged). -/
@@ -323,7 +331,11 @@ def RsyncFs.applyAll (fs : RsyncFs) : List RMut → RsyncFs × Bool
       | some fs' => RsyncFs.applyAll fs' ms
       | none => (fs, false)
 
-def tmpName (serial : Nat) : String := "tmp-" ++ toString serial
+def Top.name : Top → String
+  | .current => "current"
+  | .old => "old"
+  | .tmp n => "tmp-" ++ toString n
+  | .other s => s
 
 /-- The relative path of an object below the repository base (`uri.relative_to(base)`). -/
 def rsyncFiles (base : Uri) (objs : Objs) : List (List String × Content) :=
@@ -331,26 +343,26 @@ def rsyncFiles (base : Uri) (objs : Objs) : List (List String × Content) :=
 
 /-- `RsyncdStore::write`. -/
 def rsyncPlan (fs : RsyncFs) (base : Uri) (serial : Nat) (objs : Objs) : List (Bool × List RMut) :=
-  let tmp := tmpName serial
-  let hasCurrent := (fs.get? "current").isSome
-  let hasOld := hasCurrent || (fs.get? "old").isSome
+  let tmp := Top.tmp serial
+  let hasCurrent := (fs.get? .current).isSome
+  let hasOld := hasCurrent || (fs.get? .old).isSome
   [(true, [.mkdir tmp]),
-   (false, (rsyncFiles base objs).map (fun (rel, c) => .save tmp rel c)),
-   (true, (if hasCurrent then [.rename "current" "old"] else []) ++ [.rename tmp "current"]
-            ++ (if hasOld then [.removeAll "old"] else []))]
+   (false, (rsyncFiles base objs).map (fun p => .save tmp p.1 p.2)),
+   (true, (if hasCurrent then [.rename .current .old] else []) ++ [.rename tmp .current]
+            ++ (if hasOld then [.removeAll .old] else []))]
 
 def RMut.sig : RMut → Sig
-  | .mkdir n => ⟨"create_dir_all", [.name n], []⟩
-  | .save n rel _ => ⟨"create", .name n :: rel.map .name, []⟩
-  | .rename a b => ⟨"rename", [.name a], [.name b]⟩
-  | .removeAll n => ⟨"remove_dir_all", [.name n], []⟩
+  | .mkdir n => ⟨"create_dir_all", [.name n.name], []⟩
+  | .save n rel _ => ⟨"create", .name n.name :: rel.map .name, []⟩
+  | .rename a b => ⟨"rename", [.name a.name], [.name b.name]⟩
+  | .removeAll n => ⟨"remove_dir_all", [.name n.name], []⟩
 
 /-- The tree an rsync user sees. -/
-def RsyncFs.current (fs : RsyncFs) : Option Tree := fs.get? "current"
+def RsyncFs.current (fs : RsyncFs) : Option Tree := fs.get? .current
 
 /-- What the tree should be for a snapshot. -/
 def expectedTree (base : Uri) (objs : Objs) : Tree :=
-  (rsyncFiles base objs).map (fun (rel, c) => (rel, Raw.clean c))
+  (rsyncFiles base objs).map (fun p => (p.1, Raw.clean p.2))
 
 /-! ### a relying party's RRDP client -/
 
